@@ -16,9 +16,11 @@ PROP = {
     "level_text": ("Kernel-checked theorems for every legal (blockSize, alignment <= 1024, blockCount < 128, cache size) and every integer base "
                    "address aligned as the pool assumes of its manager: pvGetBlockIndex inverts pvGetBlock; pvNewBuffer's blocks are aligned, pairwise "
                    "disjoint, inside [base, base+pvGetBufferSize()), disjoint from every metadata byte; the single-block form (16-bit offset); for "
-                   "every reachable state of the model: Allocate returns a block that was not live or leaves the pool unchanged, the count equals "
-                   "the number of live blocks, Deallocate/MergeFrom/DeallocateAll/destructor keep the invariant, every free handed to the manager "
-                   "matches an outstanding allocation and nothing stays outstanding after DeallocateAll/destruction; the pointer code of MergeFrom, "
+                   "every state reached by any Allocate/Deallocate/DeallocateIf/DeallocateAll/MergeFrom history of the model (C09_history): Allocate "
+                   "returns a block that was not live or leaves the pool unchanged, the count equals the number of live blocks, DeallocateIf asks about "
+                   "exactly the live blocks and frees exactly the selected ones, merging keeps every live block live and freeable, every free handed to "
+                   "the manager matches an outstanding allocation and the ledger is empty after DeallocateAll/destruction; the same for blockCount 1 "
+                   "(C09_single_state); the pointer code of MergeFrom, "
                    "pvMoveBufferToHead, pvDeleteBuffer and the append in pvNewBlock implements the list operations of the state machine. The models "
                    "are executable and compared with the real pool on every run (layout: every residue of the base modulo S*N for small "
                    "periods; state: every answer, manager call, list order, cache, metadata byte)."),
@@ -36,8 +38,11 @@ PROP = {
         "Momo.Pool.C09_alloc_fresh",
         "Momo.Pool.C09_count_exact",
         "Momo.Pool.C09_dealloc_exact",
+        "Momo.Pool.C09_deallocIf_exact",
         "Momo.Pool.C09_merge_keeps_blocks",
         "Momo.Pool.C09_freed_all_returned",
+        "Momo.Pool.C09_history",
+        "Momo.Pool.C09_single_state",
         "Momo.Pool.C09_mergeFrom_dll",
         "Momo.Pool.C09_list_ops_dll",
     ],
@@ -63,8 +68,8 @@ PROP = {
         "no undefined behaviour in the address arithmetic (UBSan)",
     ],
     "not_modelled": [
-        "DeallocateIf: the model (deallocateIf) is executable and compared with the real pool on every run, the kernel theorem about it is not finished (see evidence of the build round)",
-        "blockCount == 1 state machine: executable and compared, layout theorem C09_single_block_ok proved, no state-machine theorem",
+        "MergeFrom for blockCount == 1 (cache flush + count transfer): executable and compared with the real pool, no kernel theorem",
+        "refinement of the whole state machine to the pointer level: the list operations are proved pointer-correct one by one (C09_mergeFrom_dll, C09_list_ops_dll); the traversals of DeallocateAll / DeallocateIf follow next/prev on the list view",
         "MemPoolUInt32 (DataColumn rows), the use of MemPool inside TreeNode.h / BucketUtility.h (covered through the containers by C02/C03)",
         "Swap / move construction of pools (plain field exchange)",
     ],
